@@ -6,7 +6,8 @@ ordering of the two abstract storages, operands captured and compared bit for bi
 in the most significant used lane for every type; (3) the padding invariant (bits >= 2K are zero) is inductive: every
 function that can write `storage` is enumerated from MIR (WHO-WRITES) and each has a lemma whose post-state has zero
 padding (L-empty, L-rank, L-ext, L-set, L-slice, L-rc) for every instance. Hence two histories spelling the same
-string yield the same storage, and comparisons/hash of storages are those of the strings."""
+string yield the same storage, and comparisons/hash of storages are those of the strings.
+Added later: immutable writes, k-mers read out of sequence containers, the ASCII byte tables."""
 from .. import lemmas, structural, dt_strings
 from . import common
 
